@@ -253,6 +253,14 @@ fn conversion_case(rep: &mut Report, rng: &mut Rng, long: bool) {
                 if let Ok(r) = guard(|| TextResource::from_string("raw", other.clone(), cfg()).with_string(text.clone())) {
                     sweep_raw(rep, &r, &text, &cfgname, "text-replaced");
                 }
+                // a resource built on its own and then inserted into a store (the insert initialises it a second time)
+                if let Ok(Ok(store2)) = guard(|| -> Result<AnnotationStore, String> {
+                    let mut st = AnnotationStore::new(cfg()).with_id("c12b");
+                    st.insert(TextResource::from_string("r", text.clone(), cfg())).map_err(|e| e.to_string())?;
+                    Ok(st)
+                }) {
+                    sweep_resource(rep, &store2, &text, &cfgname, "prebuilt-then-inserted");
+                }
             }
             rep.distinct(&format!("conv/{}/len{}/multibyte={}", cfgname, if len == 0 { "0".to_string() } else if len < 100 { "<100".into() } else { ">=100".into() }, text.len() != len));
         }
@@ -355,7 +363,7 @@ fn knob_case(rep: &mut Report, seed: u64, k: u64, thorough: bool) {
 }
 
 pub fn run(p: &Params, rep: &mut Report) {
-    rep.rule = "(a) for seeded texts over 1-4 byte codepoints (short: every sub-range; long 90-260 codepoints so that interval 100 matters) and each of 12 configurations (milestone interval 0,1,2,3,7,100 x shrink_to_fit), before and after annotations populate the position index: every position 0..=len+2 through utf8byte, every byte offset 0..=bytes+2 through utf8byte_to_charpos, round trip, on the resource (in a store, and the low-level TextResource built in one step or with its text replaced) and on sub-selections (bound and unbound; bound ones also through ResultItem<TextSelection>), against a naive char_indices table; (b) the same seeded op-history replayed under the 12 configurations must yield identical full observations (all lookups) and identical segmentation / find_text / related_text answers. distinct_nontrivial = distinct (configuration, length class, multibyte?) cells + distinct store shapes compared".into();
+    rep.rule = "(a) for seeded texts over 1-4 byte codepoints (short: every sub-range; long 90-260 codepoints so that interval 100 matters) and each of 12 configurations (milestone interval 0,1,2,3,7,100 x shrink_to_fit), before and after annotations populate the position index: every position 0..=len+2 through utf8byte, every byte offset 0..=bytes+2 through utf8byte_to_charpos, round trip, on the resource (in a store, and the low-level TextResource built in one step or with its text replaced, and a prebuilt resource inserted into a store) and on sub-selections (bound and unbound; bound ones also through ResultItem<TextSelection>), against a naive char_indices table; (b) the same seeded op-history replayed under the 12 configurations must yield identical full observations (all lookups) and identical segmentation / find_text / related_text answers. distinct_nontrivial = distinct (configuration, length class, multibyte?) cells + distinct store shapes compared".into();
     rep.assumptions = vec!["utf8byte on a selection for a position beyond the selection but inside the resource is not judged (undocumented)".into()];
     let nconv: u64 = if p.thorough { 1500 } else { 200 };
     let nknob: u64 = if p.thorough { 3000 } else { 400 };
